@@ -527,6 +527,13 @@ def main(tier, seed):
             chk.violation("b%d_%s" % (bi, s.holder), "`%s`: %s" % (sig_source(s).strip().splitlines()[-2].strip(), msg),
                           {"signature": sig_source(s), "declared_bounds": sorted(s.bounds), "implied_bounds": sorted(s.implied), "expected": {k: sorted(v) for k, v in expected_edges(s).items()},
                            "dir": toolrun.workdir("c04", "b%d" % bi)})
+    # ---- real memory: generated bridges on a real wasm32 module through the generated JS; whenever a method returns a reference that borrows from
+    # an opaque argument the driver keeps only the returned wrapper and forces GCs, so the owner survives solely through the wrapper's lifetime
+    # edges; an early DROP record or a read of freed (0xDD-filled) memory shows up in the event log
+    import api
+    e2e = api.js_e2e_leg(chk, seed + 4800, 320 if thorough else 40, "c04e2e", profile=dict(borrowed_returns=True), rewrap=True,
+                         only=lambda r: bool(r.get("early_drops")) or any("PANIC" in x or "GUARD" in x for x in (r.get("reports") or [])), label="js-e2e-rewrap")
+    stats.update({"e2e_" + k: v for k, v in e2e.items()})
     if stats["gc_calls"] and not stats["gc_collected_unborrowed"]:
         chk.inconc("GC leg: V8 never collected an argument that nothing borrows from; the liveness observations are vacuous")
     chk.evaluations = stats["struct_getters_checked"] + stats["output_lifetimes"] + stats["backend_edge_lists_checked"] + stats["rustc_probe_pairs"] + stats["gc_must_stay_alive_checked"]
